@@ -240,6 +240,9 @@ class Runner(object):
         if case.get('async_delays'):
             ad = case['async_delays']
             self.world.async_delay = lambda tag: ad.get(tag, 0.0)
+        if case.get('body_delays'):
+            bd = case['body_delays']
+            self.world.body_delay = lambda tag, item, n: bd.get(tag, 0.0)
         if self.pending_ops or case.get('faults'):
             self.sim.monitors.append(self._inject_due)
         self.pending_faults = sorted(
